@@ -125,7 +125,9 @@ func createPresignedHttpRequestFromCtx(ctx *fiber.Ctx, signedHdrs []string, cont
 		body = bytes.NewReader(req.Body())
 	}
 
-	uri := string(ctx.Request().URI().Path())
+	// the path as decoded once by the url decoder (the request URI's own
+	// path has been decoded a second time when that path was set)
+	uri := ctx.Path()
 	uri = httpbinding.EscapePath(uri, false)
 	isFirst := true
 
